@@ -10,13 +10,26 @@ from .lockrules import poison_rules, panic_in_drop, drop_impls
 from .C03 import undischarged_sites
 from .util import call_sites, result_gates, adt_constructions, escapes, defp_is, closure_constructions
 
-IDS_LOCK = "registered_signal_ids"
+def ids_lock(F):
+    """the mutex protecting the table of registration ids, by type: a `Mutex<..Option<SigId>..>` field of a signal-hook struct
+    (lock identifiers are `<owner type>.<field>`)"""
+    out = []
+    for c, a in F.crate_items("adts"):
+        if not a["path"].startswith("signal_hook::"):
+            continue
+        for v in a["variants"]:
+            for f in v["fields"]:
+                if re.match(r"^std::sync::(poison::)?mutex::Mutex<.*core::option::Option<signal_hook_registry::SigId>.*>$", f["ty"]):
+                    out.append("%s.%s" % (a["path"], f["name"]))
+    if len(out) != 1:
+        raise AnchorLost("the mutex protecting the table of registration ids (Mutex<..Option<SigId>..> field): found %s" % out)
+    return out[0]
 DELIVERY_TYPES = ("signal_hook::iterator::backend::DeliveryState", "signal_hook::iterator::backend::Handle",
                   "signal_hook::iterator::backend::SignalDelivery", "signal_hook::iterator::SignalsInfo")
 
 
 def rule_a(ctx):
-    poison_rules(ctx, "C12.a", lock_filter=lambda l: IDS_LOCK in l, floor=1)
+    poison_rules(ctx, "C12.a", lock_filter=lambda l, _k=ids_lock(ctx.F): _k in l, floor=1)
     from .lockrules import drops_reaching
     ds = [d for d in drops_reaching(ctx.F, "signal_hook_registry::unregister") if d.crate == "signal_hook"]
     panic_in_drop(ctx, "C12.a2", None, drops=ds)
@@ -301,7 +314,8 @@ def rule_f(ctx, rid="C12.f"):
         ctx.fn(h0)
         h = NF(F, h0)
         acqs, regions = L.analyse_body(h)
-        acq_w = [(bb, lid) for (bb, lid, kind) in acqs if IDS_LOCK in lid]
+        IDS = ids_lock(F)
+        acq_w = [(bb, lid) for (bb, lid, kind) in acqs if IDS in lid]
         n = len(acq_w)
         ctx.check(n == 1, rid, "one-acquisition", "the id table is locked exactly once in add_signal (%d acquisition(s))" % n, h0.span,
                   [h.term(bb)["sp"] for bb, _ in acq_w])
